@@ -251,6 +251,16 @@ def core_by_size(max_nodes, kinds=CORE_KINDS, max_arity=3, with_none=True):
     return trees
 
 
+def core_exact_iter(n, kinds=CORE_KINDS, max_arity=3):
+    """Lazily yield all trees with EXACTLY n nodes (n >= 2) without materialising the level."""
+    trees = core_by_size(n - 1, kinds, max_arity)
+    for k in kinds:
+        for arity in range(1, max_arity + 1):
+            for comp in _compositions(n - 1, arity):
+                for combo in itertools.product(*(trees[m] for m in comp)):
+                    yield [k, None, list(combo)]
+
+
 def core_trees(max_nodes, **kw):
     out = []
     for lst in core_by_size(max_nodes, **kw)[1:]:
@@ -581,4 +591,38 @@ def local_edits(d, path):  # noqa: C901
     if kind == 'none':
         put('none->tuple0', ['tuple', None, []])
     put('node->leaf', 'L')
+    return out
+
+
+# ---------------------------------------------------------------------------------------------
+# leafless-subtree stratum: multi-node subtrees WITHOUT leaves next to leaves (cursor / offset logic that
+# skips or shortcuts leafless regions)
+
+LEAFLESS_SHAPES = [
+    ['list', None, [['none', None, []]]],
+    ['tuple', None, [['none', None, []], ['none', None, []]]],
+    ['dict', {'keys': ['k']}, [['none', None, []]]],
+    ['list', None, [['tuple', None, []]]],
+    ['tuple', None, [['list', None, []], ['dict', {'keys': []}, []]]],
+    ['cn', {'meta': 'm'}, [['none', None, []]]],
+    ['odict', {'keys': ['z', 'a']}, [['tuple', None, []], ['list', None, [['none', None, []]]]]],
+    ['deque', {'maxlen': None}, [['nt', None, []]]],
+    ['nt', None, [['none', None, []]]],
+]
+
+
+def leafless_trees():
+    out = []
+    parents = [('tuple', None), ('list', None), ('dict', {'keys': ['b', 'a', 'c']}), ('odict', {'keys': ['b', 'a', 'c']}),
+               ('deque', {'maxlen': 'len+1'}), ('nt', None), ('cn', {'meta': 'm'}), ('cg', None),
+               ('ddict', {'keys': ['b', 'a', 'c'], 'factory': 'list'})]
+    for shape in LEAFLESS_SHAPES:
+        out.append(shape)  # wholly leafless tree
+        for pk, pv in parents:
+            for pos in range(3):
+                ch = ['L', 'L', 'L']
+                ch[pos] = shape
+                out.append([pk, pv, ch])
+            out.append([pk, pv, [shape, 'L', shape]])
+            out.append([pk, pv, [shape, shape, shape]])
     return out
